@@ -116,6 +116,8 @@ def check_json(conf, G, nodes, times, P, PP, id_key):
 
 def state_fn(conf, hist, G, M):
     G.graph['meta'] = {'k': [1, 2], 'name': 'g'}
+    G.graph['data'] = 'survey'              # attribute names that are also constructor parameters
+    G.graph['edge_removal'] = 'no'
     nodes, times, P, PP = oracles.presence_ctx(G, conf)
     trip = []
     evals = 0
